@@ -180,6 +180,35 @@ SUPPORT = {
 }
 
 
+# payload length kinds (DriverErr!LenKinds): the TT4A / LDEP exchange with a payload of n bytes, n at the driver's
+# host frame format boundaries and at its documented maximum (get_max_send_data_size)
+def len_vals(driver):
+    if driver in ("pn532", "pn533", "rcs956", "arygon"):
+        return (252, 253, 254, 255, 262, 263)
+    return (251, 252) if driver in ("pn531", "acr122") else (289, 290)
+
+
+def len_kinds(driver):
+    ks = ["LI%d" % n for n in len_vals(driver)]
+    if "LDEP" in SUPPORT[driver]:
+        ks += ["LT%d" % n for n in len_vals(driver)]
+    return ks
+
+
+def base_kind(kind):
+    return "TT4A" if kind.startswith("LI") else ("LDEP" if kind.startswith("LT") and kind[2:].isdigit() else kind)
+
+
+def _len_payload(n):
+    return bytes((i * 11 + 5) & 255 for i in range(n))
+
+
+for _n in (251, 252, 253, 254, 255, 262, 263, 289, 290):
+    for _p, _b in (("LI", "TT4A"), ("LT", "LDEP")):
+        _m, _mk, _s, _t, _r, _i = KINDS[_b]
+        KINDS["%s%d" % (_p, _n)] = (_m, _mk, _len_payload(_n), _t, _r, _i)
+
+
 def udp_reply(kind):
     mode, mk, send, tmo, rf_rsp, rf_in = KINDS[kind]
     brty = mk().brty
